@@ -10,7 +10,8 @@ CHECKS = {
              "statement) over all enumerated topologies, corner numberings and covering/conflicting chop placements; every "
              "enumerated configuration is replayed into Mesh.write() under forced set-iteration schedules and the parsed "
              "file / exception class compared with the specification's outcome; random real-shape assemblies are recorded "
-             "and judged by TLC (GradingJudge.tla).",
+             "and judged by TLC (GradingJudge.tla)."
+             " Every configuration is written twice (Grading.tla Regrade action). The repository's example scripts are run unmodified as recorded executions and every dictionary they write is judged by File.tla (CountsAgree).",
         note="Trusted: the blockMeshDict parser (harness/bmd.py), the lattice abstraction (positions -> lattice ids), "
              "TLC. Bounded: <=4 blocks in the enumerated part, real shapes only sampled.",
         technique="TLA+ spec Grading.tla + TLC exhaustive check; spec-generated configurations replayed into the code; "
@@ -21,7 +22,8 @@ CHECKS = {
              "loop for every iteration order of the neighbour/coincident sets, insertion order and numbering in the bounded "
              "model; the same configurations are replayed into the code under forced schedules with a step budget, files "
              "compared across schedules; a four-block chain fed from one end is checked and replayed in every insertion "
-             "order; random assemblies judged by TLC.",
+             "order; random assemblies judged by TLC."
+             " A 'multi' part covers two-section chops between two blocks in six relative numberings; cover/chain/multi configurations are written twice (Regrade).",
         note="Schedule control replaces Axis.neighbours / Wire.coincidents by a set subclass with a chosen iteration order "
              "(no source hook). Set iteration of the int worklist is over-approximated in the model.",
         technique="TLA+ spec Grading.tla: safety + liveness (WF) by TLC; schedule-forcing replay of spec configurations; "
@@ -44,7 +46,8 @@ CHECKS = {
              "numbering, insertion order, patches and merged pairs (incl. several pairs at one point), sub-tolerance "
              "jitter and 3*TOL twins are executed and TLC judges every recorded (program, parsed file) pair. Vertices.tla "
              "models vertex-list insertion as a state machine (Shared, Distinct, MasterSlave, Dense, OrderFree checked by "
-             "TLC) and every emitted insertion sequence is replayed into Mesh.assemble().",
+             "TLC) and every emitted insertion sequence is replayed into Mesh.assemble()."
+             " Programs may assemble+clear before merges are declared and are re-used in a second Mesh. The repository's example scripts are run unmodified as recorded executions and every dictionary they write is judged by File.tla (OnePerPoint, NoOrphans).",
         note="Trusted: blockMeshDict parser, position->id abstraction (nearest lattice point within 1e-6). Cases the "
              "statement leaves open (different non-empty slave sets at one point; a block carrying master and slave of "
              "one pair) are not generated / not judged.",
@@ -55,7 +58,8 @@ CHECKS = {
         text="Render.tla defines the expected blockMeshDict sections as relations between the abstract program and the "
              "parsed file (blocks, zones, patches with types/settings/quads as 4-cycles of Hex.tla sides, projected faces, "
              "vertex projections, default patch, merge pairs, geometry, settings, index ranges, VTK); TLC judges records of "
-             "random programs; side tables come from Hex.tla (derived from coordinates), never from the library.",
+             "random programs; side tables come from Hex.tla (derived from coordinates), never from the library."
+             " Vertex projections are judged exactly (no undeclared label), programs may assemble+clear first and their operations are re-used in a second Mesh. The repository's example scripts are run unmodified as recorded executions and every dictionary they write is judged by File.tla (indices, patch and projected quads, labels defined).",
         note="Counts/gradings are judged by C01-C04, edges by C07. Built-in geometry definition is judged on Hemisphere records.",
         technique="TLA+ spec Render.tla + Hex.tla as trace acceptor over recorded program executions",
         ref="DESIGN.md section 4 C06, Appendix B"),
@@ -63,7 +67,8 @@ CHECKS = {
         text="Render.tla C07_* clauses: every entry lies on a block edge, one entry per vertex pair, every writable user "
              "edge (given between two positions with a data direction) is realised with its kind/data and a drawn curve "
              "consistent with the entry's vertex order, lines/collinear arcs absent; programs put all edge kinds on all 12 "
-             "positions of operations whose faces are used as given, inverted, shifted or re-oriented, and define edges twice.",
+             "positions of operations whose faces are used as given, inverted, shifted or re-oriented, and define edges twice."
+             " Swept programs: a Revolve in general position followed by operation-level invert/copy/translate/rotate/scale/mirror, judged by the same clauses. The repository's example scripts are run unmodified as recorded executions and every dictionary they write is judged by File.tla (EdgesOnBlocks, EdgesOnce).",
         note="The harness decodes edge data geometrically (which user data id, drawn curve = user's curve?) with its own "
              "arc formulas; OnCurve edges are C16's.",
         technique="TLA+ spec Render.tla as trace acceptor; edge direction via predicate abstraction",
@@ -81,7 +86,8 @@ CHECKS = {
              "quantities and off-boundary twins, and TLC checks the closure loop (every pair of inputs reaches all five "
              "values in <= 3 relation applications; exact closed-form identities); the implementation is evaluated on every "
              "instance x 10 pairs x scales and compared with the exact values (count sets on ties), the realised cell sizes "
-             "decoded with blockMesh's law; every call's relation sequence is validated by ChopTrace.tla.",
+             "decoded with blockMesh's law; every call's relation sequence is validated by ChopTrace.tla."
+             " Chop.tla ReverseLaw (the reversed instance is the instance with p and q swapped; Rev(Rev(i)) = i) is checked by TLC and replayed: inverted chops for every pair, .inverted twice with the original re-read.",
         note="TLC covers counts <= 9 and ratios p/q with p,q <= 4 (32-bit integers); counts to 200, ratios in [0.5,2] and "
              "the 1+-1e-7 neighbourhood are covered by harness-side continuation of the same law on real-valued inputs. "
              "Requests whose (implied) cell size reaches the edge length may be rejected.",
@@ -94,7 +100,8 @@ CHECKS = {
              "built on a warped lattice with size/ratio-preserving laws, written under a random schedule, decoded per edge "
              "with blockMesh's multi-grading law; SizesJudge.tla (TLC) decides each record: same physical cell sequence from "
              "every block sharing an edge, preserved size/ratio on every wire of the chop's family at the geometrically "
-             "same end (orientation propagated through the recorded topology). Round shapes with arcs/splines likewise.",
+             "same end (orientation propagated through the recorded topology). Round shapes with arcs/splines likewise."
+             " Half of the lattice configurations use a product grid with one displaced vertex (exactly one of four parallel edges differs). The repository's example scripts are run unmodified as recorded executions and every dictionary they write is judged by File.tla (SizesJudge SharedSeq).",
         note="Sizes are abstracted to integer codes round(1e6 ln(size)) and compared with tolerance 3e-5; spline edge lengths "
              "are polyline approximations (only used for equality between blocks). Families with two different user laws are "
              "not generated (the statement does not say which law wins).",
@@ -104,7 +111,8 @@ CHECKS = {
         text="Arc.tla enumerates exact arcs (lattice points on circles x2+y2=R2 in integer orthogonal frames; triples with an "
              "exact mid point; integer dot/cross products fixing the included angle) and TLC checks the mid-point/reflection "
              "identities; every instance is mapped by a random similarity and AngleEdge (both signs), OriginEdge, ArcEdge and "
-             "arc_length_3point are compared with the exact mid point and R*theta; chord bound for every edge kind.",
+             "arc_length_3point are compared with the exact mid point and R*theta; chord bound for every edge kind."
+             " The same edge object is re-evaluated after both vertices moved (exact: the arc scaled about its centre).",
         note="Only angles with rational sine/cosine are exact instances (Pythagorean triples of radius 5 and 25); arbitrary "
              "orientation and radius come from the similarity. Origin arcs are judged as the minor arc (flatness 1).",
         technique="TLA+ spec Arc.tla/Lattice.tla: TLC-enumerated exact instances with spec-level identities; instance evaluation "
@@ -115,7 +123,8 @@ CHECKS = {
              "Hex.tla's symmetry group (ASSUMEs check they are 24 distinct bijections); the implementation's quality is "
              "evaluated for every renumbering, under random rigid motions and scalings, with and without a neighbour, and for "
              "stretched cubes; TLC judges the recorded values: equal within tolerance inside every orbit, non-decreasing and "
-             "direction-independent under stretching.",
+             "direction-independent under stretching."
+             " The neighbour cell's value and the same grid object after a rigid motion through GridBase.update are recorded as well.",
         note="Values are abstracted to integer codes round(1e7 ln(1+q)); tolerance 5 codes for renumbering/rigid motion, "
              "0.1 in ln(1+q) for the loose scaling family (sizes >= 1); the strict scaling statement is a known finding "
              "(guard VSMALL inside arccos).",
@@ -127,7 +136,8 @@ CHECKS = {
              "identities; under random similarities the implementation's Linear/Spline/Discrete curves (get_point, "
              "discretize and get_length in either order, additivity, closest parameter vs 400 samples) and curve-snapped "
              "edges (points on the curve between the vertices' parameters, length) are compared with those exact values; "
-             "circle and line curves are evaluated on Arc.tla's exact circle instances.",
+             "circle and line curves are evaluated on Arc.tla's exact circle instances."
+             " OnCurve edges are re-evaluated after their vertices were slid along the curve.",
         note="Spline interiors are constrained only by relations (through defining points, additivity at defining points, "
              "length >= polyline); analytic lengths to 2e-4 relative (100-point discretisation). The closest-parameter "
              "clause is an order relation evaluated by the harness. Near misses (<10 %) and acute-corner branch confusion of "
@@ -164,7 +174,8 @@ CHECKS = {
              "worse, unclamped points never move, followers stay linked, nothing stays half-applied and backport copies the "
              "final positions; real MeshOptimizer/SketchOptimizer runs (perturbed 2x2x2 assemblies, 3x3 sketches, Free/Plane/"
              "Line clamps, a translation link, four scipy methods and scripted minimisers realising the model's probe/worse/"
-             "failure behaviours) are recorded step by step through runtime wrappers and accepted by TLC (OptimizerJudge.tla).",
+             "failure behaviours) are recorded step by step through runtime wrappers and accepted by TLC (OptimizerJudge.tla)."
+             " Optimizer.tla has NFollow followers with link functions of their own; scenarios carry 1..5 translation links (first and last vertex included) or a RadialClamp with RotationLinks.",
         note="scipy's minimisers are environment (only the protocol around them is modelled). Step outcomes are compared with "
              "tolerances 1e-7 (quality) / 1e-6 size (positions); ties within rounding accept either outcome.",
         technique="TLA+ spec Optimizer.tla (TLC exhaustive, adversarial environment) + OptimizerJudge.tla trace validation of "
@@ -189,7 +200,8 @@ CHECKS = {
              "and transformed stacks on grids with pairwise different counts in random placement are observed (cell "
              "occupied by every addressed operation, members of every slice with multiplicity, block missing from the "
              "written file after Mesh.delete(addressed)), round shapes and disk sketches as (in core, in shell, touches "
-             "outer surface) per entity, and TLC judges every record.",
+             "outer surface) per entity, and TLC judges every record."
+             " Spline-round sketches (quarter/half/full) and their extrusions are recorded, with the clause ends-from-different-locations.",
         note="The cell an operation occupies is found by the harness from its centre against exact cell centres mapped by the "
              "harness' own rotation code. WrappedDisk has a middle ring that is neither core nor shell and is not judged.",
         technique="TLA+ spec Grid.tla: TLC-checked index arithmetic + TLC trace acceptor over observed addressing",
@@ -199,7 +211,8 @@ CHECKS = {
              "below a bound, open angle, requires-assembled, unique, exists) with argument classes on both sides of every "
              "boundary; the accept/reject expectation of each (call, class) row is derived from the type and TLC checks "
              "symmetry and that both sides are exercised; a registry maps every row to a concrete call of the real API in a "
-             "randomly placed setting; accepted-silently / valid-arguments-rejected are reported per row.",
+             "randomly placed setting; accepted-silently / valid-arguments-rejected are reported per row."
+             " Requires preconditions are also tested in the class 'established and undone again'; LoftedShape mid-sketch lists have rows of their own.",
         note="'Rejected' is any exception (the class is recorded in the replay). The list of guarded calls is the one the "
              "property statement enumerates; zero chain lengths are not judged.",
         technique="TLA+ spec Precond.tla: TLC-derived decision table over precondition types; replayed row by row into the API",
@@ -212,7 +225,8 @@ CHECKS = {
              "and then 24 entity kinds (point, faces/operations with every edge kind, sketch shapes, round shapes, rings, "
              "hemisphere, stacks, a joint, five curve types) are transformed by method calls or transformation lists and "
              "their output geometry (vertices, arc third points, spline points, edge lengths) compared with the image of the "
-             "original's; copy() equivalence/independence, a copied hemisphere's geometry, helper argument immutability.",
+             "original's; copy() equivalence/independence, a copied hemisphere's geometry, helper argument immutability."
+             " Operation.invert() and constructor inputs (arrays stay the caller's) are covered; compositions are stratified by the number of mirrors and the style.",
         note="Rotation angles are multiples of 90 degrees and scale ratios integers (exactness on the lattice); axes, normals "
              "and origins are non-unit / non-zero. Angle edges in the fixtures have axes perpendicular to their chords "
              "(the library's arc construction is not reversal-invariant for inconsistent angle/axis data).",
@@ -224,7 +238,8 @@ CHECKS = {
              "documented chop calls, assembled and written; TLC (Blocking.tla) judges the recorded vertex indexes: no quad is "
              "a side of more than two blocks, blocks sharing >= 3 vertices share a whole side, connected through common "
              "sides, positive corner Jacobians, class vertex count, outer arcs on the intended circle/cone, writing succeeds, "
-             "chained shapes share exactly the interface vertices.",
+             "chained shapes share exactly the interface vertices."
+             " Revolved operations are also PLACED by the library's own transformations; three further placements per kind are assembled and judged. The repository's example scripts are run unmodified as recorded executions and every dictionary they write is judged by File.tla (RightHanded, WholeSides, SidesTwice; each example must run).",
         note="Jacobian signs and arc-on-circle are harness predicates over vertex positions (Hex.tla convention); vertex-count "
              "formulas are given for the classes where the statement implies one. Fixtures choose senses of rotation that "
              "carry faces along their normals.",
